@@ -487,7 +487,10 @@ class ASTLiteralExpression(ASTExpressionBase):
     def as_int(self) -> int:
         """将字面值作为整形返回"""
         if is_int_literal(self.value):
-            return int(self.value)
+            try:
+                return int(self.value)
+            except ValueError as error:  # 超过 Python 整数字符串转换位数上限的字面值
+                raise SqlParseError(f"无法字面值 {self.value[:20]}... 转化为整型") from error
         raise SqlParseError(f"无法字面值 {self.value} 转化为整型")
 
     def as_string(self) -> str:
